@@ -229,8 +229,10 @@ func (m *moduleEngine) putLocalMemory() {
 
 	s := uint64(len(mem.Buffer))
 	var b uint64
-	if len(mem.Buffer) > 0 {
-		b = uint64(uintptr(unsafe.Pointer(&mem.Buffer[0])))
+	if cap(mem.Buffer) > 0 {
+		// The base is the one of the allocation also while the memory is empty: the buffer of a shared
+		// memory never moves, so compiled code does not reload its base after the memory has grown.
+		b = uint64(uintptr(unsafe.Pointer(&mem.Buffer[:1][0])))
 	}
 	binary.LittleEndian.PutUint64(m.opaque[offset:], b)
 	binary.LittleEndian.PutUint64(m.opaque[offset+8:], s)
